@@ -40,7 +40,51 @@ def run(rep, tier, seed, replay):
     vecs = c.read_ndjson(fpath)
     reqs, meta = [], []
 
+    def flush():
+        if not reqs:
+            return
+        stat["total"] += len(reqs)
+        if stat["sample"] is None:
+            stat["sample"] = {"meta": meta[len(meta) // 2], "input": reqs[len(meta) // 2]["input"][:40] if isinstance(reqs[len(meta) // 2]["input"], list) else reqs[len(meta) // 2]["input"]}
+        out = gen.run_worker(reqs, tag="c09")
+        for i, m in enumerate(meta):
+            r = out.get(i, {"ok": False, "err": "harness: no response", "tool_error": True})
+            if r.get("tool_error"):
+                raise c.ToolError("worker: " + r.get("err", ""))
+            stat["maxalloc"] = max(stat["maxalloc"], (r.get("alloc") or {}).get("max", 0))
+            bad = classify_err(r)
+            data = reqs[i]["input"]
+            if m["fault"] == "nest" and m["detail"][1] == 3:
+                stat["nest_sanity"][0] += 1
+                if not r.get("ok"):
+                    stat["nest_sanity"][1].append({"decoder": m["ty"], "proto": m["proto"], "mode": m["mode"], "nest": m["detail"], "observed": str(r.get("err"))[:120]})
+            if bad is None and m["fault"] == "truncate" and r.get("ok") and (m["t"] == 12 or m["site"] != "runtime-generic"):
+                # every strict prefix of a valid struct encoding is rejected with an error
+                bad = "prefix-accepted"
+            if bad is None:
+                continue
+            stat["n_crash"] += 1
+            site = m["site"].split(":")[0]
+            fault = m["fault"]
+            msg = "pending-bool" if "pending bool" in str(r.get("err")) else "-"
+            cls = {"check": bad, "site": site, "mode": m["mode"], "fault": fault if bad != "prefix-accepted" else "truncate",
+                   "def": m.get("def", "-"), "msg": msg}
+            if fault == "nest":
+                cls["nest"] = m["detail"][0]
+                cls["via"] = m["detail"][2] if len(m["detail"]) > 2 else "skip"
+                cls["proto"] = m["proto"]
+            rep.violation(cls, {"decoder": m["ty"], "schema": m.get("schema"), "idl_type": m.get("idl_type"), "wire_type": m["t"],
+                                "proto": m["proto"], "mode": m["mode"], "fault": [m["fault"], m["detail"]], "input": data,
+                                "observed": {k: v for k, v in r.items() if k != "alloc"}, "alloc_limit": reqs[i]["alloc_limit"]})
+
+        reqs.clear()
+        meta.clear()
+
+    stat = {"n_crash": 0, "maxalloc": 0, "nest_sanity": [0, []], "total": 0, "sample": None}
+
     def add(ty, t, proto, mode, kind, detail, data, site):
+        if len(reqs) >= 30000:
+            flush()       # bounded memory: run and judge what has accumulated, then go on
         rid = len(reqs)
         n = nesting.size(data) if isinstance(data, dict) else len(data)
         r = {"id": rid, "ty": ty, "proto": proto, "mode": mode, "op": "decode", "input": data, "alloc_limit": alloc_limit(n)}
@@ -99,7 +143,7 @@ def run(rep, tier, seed, replay):
                 path = gen.find_type(units, sid + suffix, tyname)
                 if path:
                     hosts.append((path, suffix, tyname))
-    n_nest0 = len(reqs)
+    n_nest0 = stat["total"] + len(reqs)
     for proto in ("bin", "binle", "compact"):
         for kind in nesting.KINDS:
             for d in depths:
@@ -133,40 +177,8 @@ def run(rep, tier, seed, replay):
                             add(path, None, proto, mode, "nest", [kind, d, "known-field", "keep" if suffix else "skip"], v, "generated:nest-known")
                             reqs[-1]["sched"] = "whole"
                             meta[-1]["def"] = "struct"
-    n_nest = len(reqs) - n_nest0
-    out = gen.run_worker(reqs, tag="c09")
-    n_crash = 0
-    maxalloc = 0
-    nest_sanity = [0, []]
-    for i, m in enumerate(meta):
-        r = out.get(i, {"ok": False, "err": "harness: no response", "tool_error": True})
-        if r.get("tool_error"):
-            raise c.ToolError("worker: " + r.get("err", ""))
-        maxalloc = max(maxalloc, (r.get("alloc") or {}).get("max", 0))
-        bad = classify_err(r)
-        data = reqs[i]["input"]
-        if m["fault"] == "nest" and m["detail"][1] == 3:
-            nest_sanity[0] += 1
-            if not r.get("ok"):
-                nest_sanity[1].append({"decoder": m["ty"], "proto": m["proto"], "mode": m["mode"], "nest": m["detail"], "observed": str(r.get("err"))[:120]})
-        if bad is None and m["fault"] == "truncate" and r.get("ok") and (m["t"] == 12 or m["site"] != "runtime-generic"):
-            # every strict prefix of a valid struct encoding is rejected with an error
-            bad = "prefix-accepted"
-        if bad is None:
-            continue
-        n_crash += 1
-        site = m["site"].split(":")[0]
-        fault = m["fault"]
-        msg = "pending-bool" if "pending bool" in str(r.get("err")) else "-"
-        cls = {"check": bad, "site": site, "mode": m["mode"], "fault": fault if bad != "prefix-accepted" else "truncate",
-               "def": m.get("def", "-"), "msg": msg}
-        if fault == "nest":
-            cls["nest"] = m["detail"][0]
-            cls["via"] = m["detail"][2] if len(m["detail"]) > 2 else "skip"
-            cls["proto"] = m["proto"]
-        rep.violation(cls, {"decoder": m["ty"], "schema": m.get("schema"), "idl_type": m.get("idl_type"), "wire_type": m["t"],
-                            "proto": m["proto"], "mode": m["mode"], "fault": [m["fault"], m["detail"]], "input": data,
-                            "observed": {k: v for k, v in r.items() if k != "alloc"}, "alloc_limit": reqs[i]["alloc_limit"]})
+    n_nest = stat["total"] + len(reqs) - n_nest0
+    flush()
     # panics / crashes seen on the WELL-FORMED inputs of the generated corpus belong here too
     extra = gencheck.add_tagged(rep, "C09", tier, seed)
     # runtime interoperability cases that panicked (C03's wire cases)
@@ -175,18 +187,18 @@ def run(rep, tier, seed, replay):
         if m["check"] in ("env-reject-panic", "wire-panic"):
             rep.violation({"check": "panic", "site": "runtime-" + m["check"], "mode": "sync", "fault": "malformed", "def": "-"}, m)
     rep.cov = {
-        "evaluations": len(reqs), "distinct_nontrivial": len(reqs),
+        "evaluations": stat["total"], "distinct_nontrivial": stat["total"],
         "rule": "one case = (decoder, protocol, sync/async, fault applied to a valid encoding): every truncation point, "
                 + ("24 seeded" if tier == "quick" else "all") + " single-bit flips per message for the runtime decoders, every length / count / "
                 "type / id position of the TLC-computed encoding map overwritten with {-1,0,1,remaining-1,remaining+1,i32::MAX,u32::MAX} "
                 "(compact: varints incl. unterminated); nesting through every composite kind to depth 100 000 (skippers, unknown fields of "
                 "generated decoders, known fields of a recursive struct); run in an isolated worker with a counting allocator that refuses any single "
                 "request above 1 MiB + 1024 x input length",
-        "samples": [{"meta": meta[len(meta) // 2], "input": reqs[len(meta) // 2]["input"][:40]}],
+        "samples": [stat["sample"]],
         "fault_positions_from_tlc": fst, "vectors": len(vecs), "generated_types_faulted": len(take),
         "nesting_probes": {"requests": n_nest, "depths": depths, "kinds": list(nesting.KINDS),
-                           "depth3_sanity_probes": nest_sanity[0], "depth3_not_ok": nest_sanity[1][:10]},
-        "largest_single_allocation_observed": maxalloc, "violations_before_known_filter": n_crash,
+                           "depth3_sanity_probes": stat["nest_sanity"][0], "depth3_not_ok": stat["nest_sanity"][1][:10]},
+        "largest_single_allocation_observed": stat["maxalloc"], "violations_before_known_filter": stat["n_crash"],
         "exhaustive": False,
     }
     rep.cov.update(extra)
